@@ -102,6 +102,15 @@ def panic_expected(case, r):
     return False
 
 
+# C03 is about aborts and resources: a value-level disagreement on a sampled case belongs to the property that owns the case
+VALUE_DIFF_NO_INPUT = True
+
+
+def agree(case, a, m):
+    """sampled cases are compared the way their own property compares them"""
+    return C02.agree(case, a, m) if case.startswith("rbsp ") else a == m
+
+
 def input_size(case):
     """bytes of input the case hands to the crate (hex text / 2; `seibig pre n post` builds n more bytes in the harness)"""
     p = case.lstrip("!").split()
